@@ -65,7 +65,7 @@ func (m *ModSet) addCellsOf(t types.Type) {
 			m.addCellsOf(at.Elem())
 			continue
 		}
-		m.cells["M_"+typeKey(ct)] = ct
+		m.cells[c.mem] = ct
 	}
 }
 
@@ -76,7 +76,7 @@ func (m *ModSet) memNames(vc *VC) []string {
 		return append(out, vc.enc.memOrder...)
 	}
 	for name, t := range m.cells {
-		vc.enc.memFor(t)
+		vc.enc.registerMem(name, t)
 		out = append(out, name)
 	}
 	for _, mt := range m.maps {
@@ -195,7 +195,16 @@ func (p *Prog) computeModSet(f *ssa.Function, ms *ModSet, visiting map[*ssa.Func
 				if a, ok := x.Addr.(*ssa.Alloc); ok && !a.Heap {
 					continue
 				}
-				ms.addCellsOf(elem)
+				if fa, ok := x.Addr.(*ssa.FieldAddr); ok && isCellType(elem) {
+					stT := fa.X.Type().Underlying().(*types.Pointer).Elem()
+					if fm := p.fieldMem(stT, fa.Field); fm != "" {
+						ms.cells[fm] = elem
+					} else {
+						ms.addCellsOf(elem)
+					}
+				} else {
+					ms.addCellsOf(elem)
+				}
 				ms.sites[storeTarget(x.Addr)] = append(ms.sites[storeTarget(x.Addr)], pos(x))
 			case *ssa.MapUpdate:
 				mt := x.Map.Type().Underlying().(*types.Map)
@@ -350,6 +359,13 @@ func (vc *VC) loopModSet(fr *frame, l *LoopInfo) *ModSet {
 			switch x := in.(type) {
 			case *ssa.Store:
 				elem := x.Addr.Type().Underlying().(*types.Pointer).Elem()
+				if fa, ok := x.Addr.(*ssa.FieldAddr); ok && isCellType(elem) {
+					stT := fa.X.Type().Underlying().(*types.Pointer).Elem()
+					if fm := vc.prog.fieldMem(stT, fa.Field); fm != "" {
+						ms.cells[fm] = elem
+						continue
+					}
+				}
 				ms.addCellsOf(elem)
 			case *ssa.MapUpdate:
 				mt := x.Map.Type().Underlying().(*types.Map)
